@@ -204,6 +204,16 @@ def add_anomalies(rng, rows):
         for r in rows:
             if r[3] > 0:
                 r[3] += s
+    if rng.uniform() < 0.25:     # hit numbering that does not follow the height order (accepted silently)
+        per = {}
+        for j, r in enumerate(rows):
+            if r[3] > 0:
+                per.setdefault((r[0], r[1]), []).append(j)
+        for js in per.values():
+            if len(js) > 1 and rng.uniform() < 0.5:
+                ts = [rows[j][3] for j in js]
+                for j, t in zip(js, [ts[q] for q in rng.permutation(len(ts))]):
+                    rows[j][3] = t
     u = rng.uniform()
     if u < 0.1:
         for r in rows:
@@ -347,6 +357,47 @@ def close_chain_scene(rng, nl=None, order=None, nce=None):
         order = str(rng.choice(ORDERS))
     rows = order_rows(rng, dedupe(rows), order)
     return {'rows': rows, 'names': names, 'order': order, 'fam': 'chain'}
+
+
+def many_split_scene(rng, nlay=None):
+    """11-13 well separated thick layers, most of them bimodal (two sub-layers ~300 ft apart, >= 30
+    hits): more than 10 groups, several of them split by the mixture model."""
+    nlay = int(nlay or rng.integers(11, 14))
+    rows = []
+    nt = 45
+    for t in range(nt):
+        dt = -t * 20.0
+        hs = []
+        for L in range(nlay):
+            base = 1000.0 + 2500.0 * L
+            bim = (L % 10 == 0) or rng.uniform() < 0.3 if t == 0 else None
+            if rng.uniform() < 0.9:
+                hs.append(base + rng.normal(0, 15))
+            if (L % 10 == 0 or L % 3 == 1) and rng.uniform() < 0.85:
+                hs.append(base + 320.0 + rng.normal(0, 15))
+        for k, h in enumerate(sorted(float(x) for x in hs)):
+            rows.append(['a', dt, h, k + 1])
+    return {'rows': dedupe(rows), 'names': ['a'], 'order': 'asc', 'fam': 'manysplit'}
+
+
+PRMS_MANY_SPLIT = {'SLICING_PRMS': {'distance_threshold': 0.03}, 'MIN_SEP_VALS': [150.0, 150.0]}
+
+
+def sep_probe_scene(rng, min_sep, eps, base=1000.0, order='asc'):
+    """Two flat constant-height decks whose distance is min_sep - eps (eps may be 0, one ulp, tiny,
+    negative): the reported group bases are exactly the two heights."""
+    h2 = base + min_sep - (eps if not isinstance(eps, str) else 0.0)
+    if eps == 'ulp':
+        h2 = float(np.nextafter(base + min_sep, -np.inf))
+    elif eps == '-ulp':
+        h2 = float(np.nextafter(base + min_sep, np.inf))
+    rows = []
+    for t in range(40):
+        dt = -t * 15.0
+        rows.append(['a', dt, base, 1])
+        rows.append(['a', dt, float(h2), 2])
+    rows = order_rows(rng, rows, order)
+    return {'rows': rows, 'names': ['a'], 'order': order, 'fam': 'sepprobe', 'h2': float(h2)}
 
 
 def many_slices_scene(rng):
@@ -537,3 +588,45 @@ def deep_merge(base, upd):
         else:
             out[k] = copy.deepcopy(v)
     return out
+
+
+# ------------------------------------------------------------------------------------------------
+# real-world reference scenes shipped with the repository's test-suite
+
+
+def refdata_files():
+    import os
+    import glob
+    from . import env
+    root = os.path.join(os.path.dirname(os.path.realpath(env.SRC)), 'test', 'ampycloud', 'ref_data')
+    return sorted(glob.glob(os.path.join(root, '*.csv')))
+
+
+def refdata_scene(rng, idx, perturb=0):
+    """One of the reference data sets, optionally perturbed: 1 = rows shuffled, 2 = random subsample,
+    3 = heights jittered by a few ft, 4 = ceilometers renamed + one instrument removed."""
+    import os
+    files = refdata_files()
+    f = files[idx % len(files)]
+    df = pd.read_csv(f)
+    rows = [[str(c), float(t), float(h), int(k)] for c, t, h, k in zip(df['ceilo'], df['dt'], df['height'], df['type'])]
+    if perturb == 2:
+        keep = sorted(rng.permutation(len(rows))[:max(5, int(len(rows) * rng.uniform(0.3, 0.9)))])
+        rows = [rows[i] for i in keep]
+    elif perturb == 3:
+        for r in rows:
+            if r[2] == r[2]:
+                r[2] = float(max(0.0, r[2] + rng.normal(0, 3)))
+    elif perturb == 4:
+        names = sorted(set(r[0] for r in rows))
+        drop = names[int(rng.integers(len(names)))] if len(names) > 1 else None
+        rows = [[r[0][::-1] + '#', r[1], r[2], r[3]] for r in rows if r[0] != drop]
+    rows = dedupe(rows)
+    if perturb == 1:
+        rows = order_rows(rng, rows, 'shuf')
+    msa = None
+    stem = os.path.basename(f)
+    if 'MSA' in stem:
+        msa = float(stem.split('MSA')[1].split('.')[0])
+    return {'rows': rows, 'names': sorted(set(r[0] for r in rows)), 'order': 'shuf' if perturb == 1 else 'file',
+            'fam': 'refdata', 'file': stem, 'msa': msa}
